@@ -49,7 +49,11 @@ func TestC10(t *testing.T) {
 			}
 		}
 		for _, act := range []string{"vt-refuse-loop", "vt-hang", "vt-connected", "vt-timer-pending", "tcp-refuse-loop", "ipc-refuse-loop", "inproc-refuse-loop", "ws-refuse-loop"} {
-			for _, p := range []string{"pair", "req", "sub", "bus", "push", "surveyor"} {
+			ps := []string{"pair", "req", "sub", "bus", "push", "surveyor"}
+			if act == "vt-hang" {
+				ps = hx.AllProtos // the connection that arrives after Close is refused by the protocol itself: every protocol's refusal path
+			}
+			for _, p := range ps {
 				cases = append(cases, mon.CaseSpec{Name: "dial/" + act + "/" + p, Spec: spec{Kind: "dial", Act: act, Proto: p, Yield: rnd.Intn(2) == 0}})
 			}
 		}
@@ -63,6 +67,9 @@ func TestC10(t *testing.T) {
 		}
 		for i := 0; i < 6; i++ {
 			cases = append(cases, mon.CaseSpec{Name: "race/listen-vs-close", Spec: spec{Kind: "race", Proto: []string{"pair", "rep", "sub"}[i%3], Act: "listen", Yield: rnd.Intn(2) == 0}})
+		}
+		for i := 0; i < 6; i++ {
+			cases = append(cases, mon.CaseSpec{Name: "race/dial-vs-close", Spec: spec{Kind: "race", Proto: []string{"pair", "req", "sub"}[i%3], Act: "dial", Yield: rnd.Intn(2) == 0}})
 		}
 		for _, tr := range []string{"tcp", "ipc", "tls+tcp"} {
 			cases = append(cases, mon.CaseSpec{Name: "acceptbusy/" + tr, Spec: spec{Kind: "acceptbusy", Tran: tr}})
@@ -108,7 +115,11 @@ func TestC10(t *testing.T) {
 		case "sibling":
 			runSibling(c, sp)
 		case "race":
-			runRaceListen(c, sp)
+			if sp.Act == "dial" {
+				runRaceDial(c, sp)
+			} else {
+				runRaceListen(c, sp)
+			}
 		case "acceptbusy":
 			runAcceptBusy(c, sp)
 		case "dialwaiting":
@@ -594,7 +605,7 @@ func runDial(c *mon.Case, sp spec) {
 	} else {
 		mon.Sleep(6 * rt)
 	}
-	laterCalls(c, ctx, s, nil, nil, d, "")
+	laterCalls(c, ctx+"/"+sp.Proto, s, nil, nil, d, "")
 	c.Nontrivial()
 }
 
@@ -970,6 +981,53 @@ func leakTop(left []mon.G) string {
 
 // runRaceListen: Listen racing Close.  Whatever Listen returns, once both calls have returned the
 // address must not stay bound: a closed socket has no listening address.
+// runRaceDial: Socket.Dial (an asynchronous dialer towards a refusing endpoint, redialling every 2 ms)
+// racing Socket.Close through a slow transport constructor.  Whoever wins, once both have returned
+// the socket is closed: no connection attempt may be started any more (one in flight is tolerated).
+func runRaceDial(c *mon.Case, sp spec) {
+	ctx := "race/dial-vs-close"
+	for round := 0; round < 10 && !c.Failed(); round++ {
+		s := hx.MustSock(c, sp.Proto)
+		s.SetOption(mangos.OptionReconnectTime, 2*time.Millisecond)
+		s.SetOption(mangos.OptionMaxReconnectTime, 2*time.Millisecond)
+		s.SetOption(mangos.OptionDialAsynch, true)
+		name := hx.Uniq("c10rd")
+		D := vt.D(name)
+		D.SetDefault(vt.Outcome{Kind: vt.Refuse})
+		D.SetNewDelay(time.Duration(200+c.Rand.Intn(1500)) * time.Microsecond)
+		dk := mon.Go("Dial", func() (interface{}, error) { return nil, s.Dial(vt.Addr(name)) })
+		mon.Sleep(time.Duration(c.Rand.Intn(1400)) * time.Microsecond)
+		ck := mon.Go("Close", func() (interface{}, error) { return nil, s.Close() })
+		if !c.AwaitOrViolate("close-blocks:"+ctx, "Close racing Dial returning", ck.Done, mon.AwaitOpts{MaxTimer: 2 * time.Millisecond}) {
+			return
+		}
+		if !c.AwaitOrViolate("later-call-blocks:"+ctx+"/Dial", "Dial racing Close returning", dk.Done, mon.AwaitOpts{MaxTimer: 2 * time.Millisecond}) {
+			return
+		}
+		closedAt := mon.Now()
+		_, derr, _ := dk.Result()
+		if derr != nil && derr != mangos.ErrClosed {
+			c.Violate("later-call-result:"+ctx+"/Dial", "Dial racing Close returned %v (want nil or the closed error)", derr)
+		}
+		mon.Sleep(25 * time.Millisecond) // a dozen reconnect intervals
+		after := 0
+		for _, a := range D.Log() {
+			if a.Start > closedAt {
+				after++
+			}
+		}
+		if after > 1 {
+			c.Violate("dial-after-close:"+ctx, "%d connection attempts were started after both Dial (returned %v) and Close had returned: %s", after, derr, renderLog(D.Log(), closedAt))
+		}
+		c.Count("dial_close_races", 1)
+		if derr == nil {
+			c.Count("dial_won_race", 1)
+		}
+		vt.Forget(name)
+	}
+	c.Nontrivial()
+}
+
 func runRaceListen(c *mon.Case, sp spec) {
 	ctx := "race/listen-vs-close"
 	for round := 0; round < 12 && !c.Failed(); round++ {
